@@ -432,8 +432,88 @@ func (p *Prog) CFG(f *Fn) *cfg.CFG {
 			}
 			return true
 		})
+		expandNamedBooleans(info, f.cfg)
 	}
 	return f.cfg
+}
+
+// expandNamedBooleans rewrites the condition nodes of the graph so that a boolean local that was defined in the same
+// block, just in front of the test, stands for its definition: `fresh := a == b; unchanged := c.IsZero(); if fresh &&
+// !unchanged` is analysed as `if (a == b) && !(c.IsZero())`. Path rules prune edges by what a condition establishes;
+// "split a long condition into named booleans" is among the commonest clean-ups and must not blind them. Only the spine
+// of the condition (&&, ||, !, parentheses) is rebuilt, the definitions themselves stay the original syntax nodes with
+// their type information. Conservative: the definition is a one-to-one `:=`/`=` in the same basic block, the local has
+// no other definition in that block behind it, and every node between the definition and the test is itself a
+// definition of fresh locals (`:=`) — nothing in between can change what the definition read.
+func expandNamedBooleans(info *types.Info, g *cfg.CFG) {
+	for _, b := range g.Blocks {
+		if len(b.Succs) != 2 || len(b.Nodes) < 2 {
+			continue
+		}
+		last := len(b.Nodes) - 1
+		cond, ok := b.Nodes[last].(ast.Expr)
+		if !ok {
+			continue
+		}
+		// defOf: the definition of the boolean local id in this block in front of node index upto, and its index
+		defOf := func(id *ast.Ident, upto int) (ast.Expr, int) {
+			o, _ := info.Uses[id].(*types.Var)
+			if o == nil || o.IsField() {
+				return nil, 0
+			}
+			if bt, isB := o.Type().Underlying().(*types.Basic); !isB || bt.Kind() != types.Bool {
+				return nil, 0
+			}
+			for j := upto - 1; j >= 0; j-- {
+				as, isAs := b.Nodes[j].(*ast.AssignStmt)
+				if !isAs || as.Tok != token.DEFINE {
+					return nil, 0 // something else stands between the definition and the test
+				}
+				for k, l := range as.Lhs {
+					if lid, isId := l.(*ast.Ident); isId && info.ObjectOf(lid) == types.Object(o) {
+						if len(as.Lhs) != len(as.Rhs) {
+							return nil, 0
+						}
+						return as.Rhs[k], j
+					}
+				}
+			}
+			return nil, 0
+		}
+		var expand func(e ast.Expr, upto int) (ast.Expr, bool)
+		expand = func(e ast.Expr, upto int) (ast.Expr, bool) {
+			switch x := e.(type) {
+			case *ast.ParenExpr:
+				if n, ch := expand(x.X, upto); ch {
+					return &ast.ParenExpr{Lparen: x.Lparen, X: n, Rparen: x.Rparen}, true
+				}
+			case *ast.UnaryExpr:
+				if x.Op == token.NOT {
+					if n, ch := expand(x.X, upto); ch {
+						return &ast.UnaryExpr{OpPos: x.OpPos, Op: x.Op, X: n}, true
+					}
+				}
+			case *ast.BinaryExpr:
+				if x.Op == token.LAND || x.Op == token.LOR {
+					l, c1 := expand(x.X, upto)
+					r, c2 := expand(x.Y, upto)
+					if c1 || c2 {
+						return &ast.BinaryExpr{X: l, OpPos: x.OpPos, Op: x.Op, Y: r}, true
+					}
+				}
+			case *ast.Ident:
+				if d, at := defOf(x, upto); d != nil {
+					// named booleans built from named booleans
+					d2, _ := expand(d, at)
+					return &ast.ParenExpr{Lparen: x.Pos(), X: d2, Rparen: x.End()}, true
+				}
+			}
+			return e, false
+		}
+		if n, ch := expand(cond, last); ch {
+			b.Nodes[last] = n
+		}
+	}
 }
 
 // inspectShallow walks n without descending into function literals
